@@ -5,16 +5,10 @@ import "qedverif/lib"
 // Workers are child-process entry points (qv worker <name> args...).
 var Workers = map[string]func(args []string) int{}
 
-func RunC05(c *lib.Ctx) { c.Inconclusive("C05: check not built yet") }
-
-func RunC06(c *lib.Ctx) { c.Inconclusive("C06: check not built yet") }
-
 func RunC07(c *lib.Ctx) { c.Inconclusive("C07: check not built yet") }
 
 func RunC08(c *lib.Ctx) { c.Inconclusive("C08: check not built yet") }
 
 func RunC09(c *lib.Ctx) { c.Inconclusive("C09: check not built yet") }
-
-func RunC10(c *lib.Ctx) { c.Inconclusive("C10: check not built yet") }
 
 func RunC16(c *lib.Ctx) { c.Inconclusive("C16: check not built yet") }
